@@ -4,7 +4,8 @@ from common import *  # noqa: F401,F403
 RULE = ("random pairs of valid knot vectors on the same interval: equal and different degrees (0..4), shared and distinct interior knots with "
         "different multiplicities, identical vectors, Bezier vectors; pairs on different intervals.  Non-trivial: some interior knot; "
         "distinct = distinct (U, V)."
-        " Also: pairs with equal degree, equal breakpoints and equal length whose multiplicities are distributed differently.")
+        " Also: pairs with equal degree, equal breakpoints and equal length whose multiplicities are distributed differently;"
+        " pairs whose operands use different number types (Fraction / float / int, every value exactly representable in both).")
 EXPLANATION = ("L2: U|V and U&V vs the model; L3: degree, per-knot multiplicity formulas, commutativity, idempotence, refinement, untouched "
                "operands evaluated on the real results; representability: a random spline over U (and over V) transformed to U|V by "
                "heavy.Operations.matrix_transformation is the same function (`rf.eq`); minimality: lowering any knot of U|V loses U or V.")
@@ -18,6 +19,8 @@ def mults(U):
 def run_case(ctx, case):
     rec, drv = ctx["rec"], ctx["drv"]
     c = de(case)
+    if c.get("kind") == "mixed":
+        return run_mixed(ctx, case)
     U, V = c["U"], c["V"]
     p, q = kv_info(U)[0], kv_info(V)[0]
     rec.case(case, nontrivial=len(set(U)) > 2 or len(set(V)) > 2)
@@ -101,8 +104,82 @@ def run_case(ctx, case):
             rec.violation("intersection is not idempotent", case)
 
 
+def typed(U, rep):
+    """the knot list in one number representation: Fractions, python floats, python ints (integral values only)"""
+    if rep == "float":
+        return [float(x) for x in U]
+    if rep == "int" and all(frac(x).denominator == 1 for x in U):
+        return [int(x) for x in U]
+    return [F(x) for x in U]
+
+
+def snap(k):
+    """values *and* number types of a KnotVector: converting an operand to another representation is a modification too"""
+    return (tuple(frac(x) for x in k), tuple(type(x).__name__ for x in k), k.degree)
+
+
+def run_mixed(ctx, case):
+    """operands of different number types (all values exactly representable in both): same answers as for Fractions, and neither
+    operand — the right-hand KnotVector object in particular — changes its values or the type of its knots"""
+    rec, drv = ctx["rec"], ctx["drv"]
+    c = de(case)
+    U, V = c["U"], c["V"]
+    rec.case(case, nontrivial=len(set(U)) > 2 or len(set(V)) > 2)
+    rec.count("mixed", c["repU"] + "|" + c["repV"])
+    ku, kv = KnotVector(typed(U, c["repU"])), KnotVector(typed(V, c["repV"]))
+    su, sv = snap(ku), snap(kv)
+    p, q = ku.degree, kv.degree
+    ops = [("U | V", lambda: ku | kv, "kv.union", (U, V)), ("V | U", lambda: kv | ku, "kv.union", (V, U)),
+           ("copy(U) |= V", lambda: KnotVector(typed(U, c["repU"])).__ior__(kv), "kv.union", (U, V)),
+           ("U | list(V)", lambda: ku | typed(V, c["repV"]), "kv.union", (U, V))]
+    if p == q:
+        ops += [("U & V", lambda: ku & kv, "kv.inter", (U, V)), ("V & U", lambda: kv & ku, "kv.inter", (V, U)),
+                ("copy(V) &= U", lambda: KnotVector(typed(V, c["repV"])).__iand__(ku), "kv.inter", (V, U))]
+    for name, fn, cmd, args in ops:
+        r = impl(fn)
+        l3(rec, "operands-untouched")
+        if snap(ku) != su or snap(kv) != sv:
+            rec.violation("%s modified an operand (values or number type of its knots)" % name, case,
+                          U_now=str(snap(ku))[:300], V_now=str(snap(kv))[:300])
+            return
+        m = drv.call(cmd, *args)
+        if r[0] == "ok":
+            X = [frac(x) for x in r[1]]
+            l2(rec, cmd + ".mixed", case, X, m, m[0] == "ok" and list(m[1][0]) == X)
+            if m[0] == "ok" and list(m[1][0]) != X:
+                rec.violation("%s of operands with mixed number types differs from the exact answer" % name, case, observed=ser(X),
+                              expected=ser(list(m[1][0])))
+                return
+        else:
+            l2(rec, cmd + ".mixed", case, errkind(r), m, errkind(r) == errkind(m))
+            if m[0] == "ok":
+                rec.violation("%s raised for operands with mixed number types" % name, case, observed=r[1])
+                return
+
+
 def run(ctx):
     rng = ctx["rng"]
+    for i in range(budget(ctx, 16, 160)):
+        # mixed number types: dyadic (and sometimes integral) knot values, exactly representable as Fraction and as float
+        if rng.random() < 0.3:
+            U = rand_int_kv(rng)
+            V = sorted(set(U))
+            q = rng.randint(0, 3)
+            V = [V[0]] * (q + 1) + [x for x in V[1:-1] if rng.random() < 0.7 for _ in range(rng.randint(1, q + 1))] + [V[-1]] * (q + 1)
+            reps = ["fraction", "float", "int"]
+        else:
+            U, V = rand_dyadic_kv(rng), rand_dyadic_kv(rng)
+            if rng.random() < 0.5:
+                pv = kv_info(U)[0]
+                ks = sorted(set(U))
+                V = [ks[0]] * (pv + 1) + [x for x in DYADIC if ks[0] < x < ks[-1] and rng.random() < 0.4
+                                          for _ in range(rng.randint(1, pv + 1))] + [ks[-1]] * (pv + 1)
+            reps = ["fraction", "float"]
+        if (U[0], U[-1]) != (V[0], V[-1]):
+            continue
+        ru = rng.choice(reps)
+        rv = rng.choice([r for r in reps if r != ru])
+        run_mixed(ctx, ser(dict(kind="mixed", U=U, V=V, repU=ru, repV=rv)))
     run_case(ctx, ser(dict(kind="pair", U=[F(0), F(0), F(1, 2), F(1), F(1)], V=[F(0)] * 3 + [F(1, 3)] + [F(1)] * 3)))
     for i in range(budget(ctx, 15, 200)):
         # same degree, same distinct knots, same length — only the multiplicities are distributed differently
